@@ -101,6 +101,7 @@ Variable btake : N -> B -> B.
 (* a streaming decoder positioned somewhere in its input *)
 Inductive reader : Type :=
 | Rd (fl : option B)        (* do.flush() in this state: None = raises *)
+     (fl_eof : bool)        (* do.eof after that flush *)
      (eof : bool)           (* do.eof / "the frame's last block has been decoded" in this state *)
      (ra : option B)        (* read-everything call in this state (reader.read() / do.decompress(data)): None = raises *)
      (ra_fl : option B)     (* do.flush() after that read-everything call *)
@@ -110,8 +111,9 @@ with rstep : Type :=
 | SRaise
 | SChunk (ch : B) (ut : bool) (next : reader).   (* ut: do.unconsumed_tail is non-empty afterwards *)
 
-Definition rd_fl (r : reader) := match r with Rd fl _ _ _ _ _ => fl end.
-Definition rd_eof (r : reader) := match r with Rd _ e _ _ _ _ => e end.
+Definition rd_fl (r : reader) := match r with Rd fl _ _ _ _ _ _ => fl end.
+Definition rd_fl_eof (r : reader) := match r with Rd _ e _ _ _ _ _ => e end.
+Definition rd_eof (r : reader) := match r with Rd _ _ e _ _ _ _ => e end.
 
 (* decoding behaviour of one wire body under zstandard *)
 Record zbeh := {
@@ -134,7 +136,7 @@ Definition req_size (k : cfg) (c total : N) : N := N.min (chunk k) (c - total + 
    if total > cap: raise Limit; chunks.append(chunk) *)
 Fixpoint zloop (k : cfg) (c : N) (r : reader) (total : N) (acc : B) (log : list call) : dout :=
   match r with
-  | Rd _ eof _ _ _ f =>
+  | Rd _ _ _ _ _ _ f =>
       let n := req_size k c total in
       match f n with
       | SRaise => {| d_res := DErr; d_log := log ++ [CRead n]; d_mat := total |}
@@ -156,7 +158,7 @@ Definition dec_zstd (k : cfg) (z : zbeh) : dout :=
           match declared with
           | None =>
               match z_rd z with
-              | Rd _ _ ra _ ra_eof _ =>
+              | Rd _ _ _ ra _ ra_eof _ =>
                   match ra with
                   | None => {| d_res := DErr; d_log := [CHdr; CReadAll]; d_mat := 0 |}
                   | Some b => {| d_res := DOk b; d_log := [CHdr; CReadAll]; d_mat := blen b |}
@@ -190,7 +192,7 @@ Definition gfinish (k : cfg) (c : N) (r : reader) (total : N) (acc : B) (log : l
       if negb (blen tail =? 0) && (c <? total')
       then {| d_res := DLimit; d_log := log ++ [CFlush]; d_mat := total' |}
       else if gzip_eof_check k then
-             (if rd_eof r then {| d_res := DOk (bapp acc tail); d_log := log ++ [CFlush; CEof]; d_mat := total' |}
+             (if rd_fl_eof r then {| d_res := DOk (bapp acc tail); d_log := log ++ [CFlush; CEof]; d_mat := total' |}
               else {| d_res := DErr; d_log := log ++ [CFlush; CEof]; d_mat := total' |})
            else {| d_res := DOk (bapp acc tail); d_log := log ++ [CFlush]; d_mat := total' |}
   end.
@@ -199,7 +201,7 @@ Definition gfinish (k : cfg) (c : N) (r : reader) (total : N) (acc : B) (log : l
    continues exactly while unconsumed_tail is non-empty) *)
 Fixpoint gloop (k : cfg) (c : N) (r : reader) (total : N) (acc : B) (log : list call) : dout :=
   match r with
-  | Rd _ _ _ _ _ f =>
+  | Rd _ _ _ _ _ _ f =>
       let n := req_size k c total in
       match f n with
       | SRaise => {| d_res := DErr; d_log := log ++ [CGz n]; d_mat := total |}
@@ -220,7 +222,7 @@ Definition dec_gzip (k : cfg) (data : B) (g : reader) : dout :=
   match cap k with
   | None =>
       match g with
-      | Rd _ _ ra ra_fl ra_eof _ =>
+      | Rd _ _ _ ra ra_fl ra_eof _ =>
           match ra with
           | None => {| d_res := DErr; d_log := [CGzAll]; d_mat := 0 |}
           | Some b =>
@@ -300,15 +302,15 @@ Definition handle (k : cfg) (zdec : B -> zbeh) (gdec : B -> reader) (r : request
   end.
 
 (* ---- a reader that replays an observed run (correspondence) ---- *)
-Fixpoint trace_rd (steps : list (option (B * bool * bool))) (eof : bool) (fl : option B)
+Fixpoint trace_rd (steps : list (option (B * bool * bool))) (eof : bool) (fl : option B) (fl_eof : bool)
          (ra : option B) (ra_fl : option B) (ra_eof : bool) : reader :=
   match steps with
-  | [] => Rd fl eof ra ra_fl ra_eof (fun _ => SRaise)
+  | [] => Rd fl fl_eof eof ra ra_fl ra_eof (fun _ => SRaise)
   | s :: rest =>
-      Rd fl eof ra ra_fl ra_eof
+      Rd fl fl_eof eof ra ra_fl ra_eof
          (fun _ => match s with
                    | None => SRaise
-                   | Some (ch, ut, eof') => SChunk ch ut (trace_rd rest eof' fl ra ra_fl ra_eof)
+                   | Some (ch, ut, eof') => SChunk ch ut (trace_rd rest eof' fl fl_eof ra ra_fl ra_eof)
                    end)
   end.
 
@@ -334,11 +336,11 @@ Definition mk_cfg (c : option N) (zi zd : bool) (ch : N) (idp gb gz : bool) : cf
 (* observed decoder behaviour of the one body of the case *)
 Definition obs (B : Type) : Type :=
   (option (option N) * option B) *                              (* z_hdr, z_one *)
-  (list (option (B * bool * bool)) * option B) *                (* bounded steps (chunk, unconsumed_tail?, eof after), flush *)
+  (list (option (B * bool * bool)) * option B * bool) *         (* bounded steps (chunk, unconsumed_tail?, eof after), flush, eof after flush *)
   (option B * option B * bool).                                 (* read-all, flush after it, eof after it *)
 
 Definition obs_reader {B} (o : obs B) :=
-  let '(_, (steps, fl), (ra, ra_fl, ra_eof)) := o in trace_rd B steps false fl ra ra_fl ra_eof.
+  let '(_, (steps, fl, fl_eof), (ra, ra_fl, ra_eof)) := o in trace_rd B steps false fl fl_eof ra ra_fl ra_eof.
 Definition obs_zbeh {B} (o : obs B) : zbeh B :=
   let '((h, one), _, _) := o in {| z_hdr := h; z_one := one; z_rd := obs_reader o |}.
 
